@@ -168,7 +168,7 @@ def addSub (c : Cfg) (isSub : Bool) (o : Out) (a : Reg) (b : Arg) : Res :=
     let out := outReg c o a (max a.degree rb.degree) (min a.level rb.level)
     if a.degree + rb.degree = 0 then .error .err else
     let level := min (min a.level rb.level) out.level
-    let degree := max (max a.degree rb.degree) out.degree
+    let degree := max a.degree rb.degree     -- InitOutputBinaryOp: the receiver is resized to this degree
     if a.scale = rb.scale then
       -- (evaluateInPlace copies op1's higher-degree limbs; `Sub` negates them afterwards)
       ok1 { level := level, degree := degree, scale := a.scale,
@@ -340,7 +340,8 @@ def accOp (c : Cfg) (relin : Bool) (o : Out) (a : Reg) (b : Arg) : Res :=
 
 def rescaleOp (c : Cfg) (o : Out) (a : Reg) : Res :=
   let out := outReg c o a a.degree a.level
-  if c.si then ok1 out else
+  -- scale-invariant evaluator: no rescaling, the receiver becomes a copy of op0
+  if c.si then ok1 a else
   if a.level = 0 then .error .err else
   if out.level + 1 < a.level then .error .err else
   -- `opOut.Resize(op0.Degree(), opOut.Level())`: the receiver takes op0's degree
@@ -414,10 +415,9 @@ def Instr.outSpec (rf : List Reg) (i : Instr) : Option (Out × Nat) :=
   | .inp => some (Out.inp, i.a)
   | .into j => (rf[j]?).map fun r => (Out.into r, j)
 
-/-- instructions excluded from straight-line programs: `Rescale` on a scale-invariant evaluator (a
-    documented no-op that leaves the receiver as it was) and `MatchScalesAndLevel` (two results). -/
-def guardOK (c : Cfg) (op : Op) (_o : Out) (_a : Reg) (_b : Arg) : Bool :=
-  (op != .rescale || !c.si) && op != .matchSL
+/-- instructions excluded from straight-line programs: `MatchScalesAndLevel` (two results). -/
+def guardOK (_c : Cfg) (op : Op) (_o : Out) (_a : Reg) (_b : Arg) : Bool :=
+  op != .matchSL
 
 /-- one instruction: operands are read from the register file, the result is stored at `dst` -/
 def exec (c : Cfg) (rf : List Reg) (i : Instr) : Except Err (List Reg) :=
